@@ -8,7 +8,7 @@ Import ListNotations.
 Require Import Fggs.Model.Json.
 Require Import Fggs.Proofs.Json_base Fggs.Proofs.Json_iso Fggs.Proofs.Json_rule Fggs.Proofs.Json_roundtrip
                Fggs.Proofs.Json_oor Fggs.Proofs.Json_dense Fggs.Proofs.Json_wparse Fggs.Proofs.Json_weights
-               Fggs.Proofs.Json_findings.
+               Fggs.Proofs.Json_findings Fggs.Proofs.Json_fgg.
 
 (** * (A) round trip up to renaming of implicit ids
     [hrg_iso g g']: same start; the edge-label tables are the same map name -> label (so same
@@ -142,6 +142,25 @@ Theorem C14_patterned_weights_without_vaxes_refuted :
   json_to_weights_model f19_spec = Err AssertErr.
 Proof. exact f19_refuted. Qed.
 Print Assumptions C14_patterned_weights_without_vaxes_refuted.
+
+(** * (A) FGG level: json_to_fgg (fgg_to_json g)
+    the grammar is isomorphic (through [FGG.from_hrg]), the domains are equal and every factor
+    denotes the same dense tensor entry by entry (whatever its sparsity pattern, infinities
+    included) -- under two guards that exclude the defects F20 and F21 below:
+    [labels_used]: every edge label is the start symbol, a left-hand side or used in some rule;
+    [factor_wf]: factors are bound to registered terminals with domains, have the right shape,
+    can be densified, and no dimension is empty. *)
+Theorem C14_fgg_roundtrip :
+  forall (dec : nat -> str) (g : fgg) (c : nat),
+    wf_hrg (f_hrg g) = true -> labels_used (f_hrg g) = true ->
+    Forall (factor_wf (h_labels (f_hrg g)) (f_domains g)) (f_factors g) ->
+    exists j g',
+      fgg_to_json_model dec g = Ok j /\ json_to_fgg_model c j = Ok g' /\
+      hrg_iso (f_hrg g) (f_hrg g') /\
+      f_domains g' = f_domains g /\
+      Forall2 (fun kf kf' => fst kf' = fst kf /\ factor_same (snd kf) (snd kf')) (f_factors g) (f_factors g').
+Proof. exact fgg_roundtrip. Qed.
+Print Assumptions C14_fgg_roundtrip.
 
 (** * FGG level: F20 -- json_to_fgg (fgg_to_json g) raises KeyError for a well-formed g *)
 Theorem C14_fgg_roundtrip_refuted :
